@@ -27,7 +27,7 @@ RULE = ('Exhaustive over the finite documented domains: all 256 power-of-two den
 ASSUMPTIONS = ['text is drawn from latin-1 encodable characters (charsets: C17)',
                'frame_rate floats equal to a listed integer rate (24.0) are not judged']
 
-OKEXC = (ValueError, TypeError)
+OKEXC = (ValueError, TypeError, BytesWarning)     # (BytesWarning: a bytes value compared with str under python -bb)
 
 
 def _domain_ok(t, name, enc):
@@ -134,6 +134,11 @@ def check_meta(case):
             why = 'not equal under =='
         if why:
             out.append(fail('track-differs', f'{t} {str(attrs)[:100]} delta={delta}: {why}', **facts))
+        # clip=True only concerns data bytes of channel / sysex messages: a meta payload is not touched
+        rc = mido.MidiFile(file=io.BytesIO(fb), clip=True).tracks[0][0]
+        why = M.same(rc, dd)
+        if why:
+            out.append(fail('track-differs', f'{t} {str(attrs)[:100]} read with clip=True: {why}', clip='True', **facts))
     except Exception as exc:  # noqa: BLE001
         out.append(fail('track-raises', f'{t} {str(attrs)[:100]}: {exc!r}', exc=exc_sig(exc), **facts))
     del tm
@@ -256,7 +261,7 @@ def _both(rec, t, attrs, delta=0, **kw):
 def enum_shard(rec, shard):
     kind, k, n = shard
     if kind == 'seqnum':
-        for v in range(k, 65536, n):
+        for v in range(k, 65536, n * (17 if rec.reduced else 1)):
             _both(rec, 'sequence_number', {'number': v}, delta=v % 300, sample=(v == 258))
     elif kind == 'misc':
         for e in range(256):
